@@ -248,7 +248,7 @@ struct World<T: PairT> {
 
 impl<T: PairT> World<T> {
     fn new(k: usize) -> Self {
-        World { slots: (0..k).map(|_| T::new()).collect(), ghost: vec![vec![]; k], addonly: vec![true; k] }
+        World { slots: (0..k).map(|i| if i % 2 == 0 { T::new() } else { T::default_() }).collect(), ghost: vec![vec![]; k], addonly: vec![true; k] }
     }
 }
 
@@ -291,7 +291,7 @@ fn apply<T: PairT>(w: &mut World<T>, op: &POp, e: &PairEmb, swap: bool) {
             w.addonly[d] = w.addonly[s];
         }
         POp::Fresh(s) => {
-            w.slots[s] = T::new();
+            w.slots[s] = if (s + w.ghost.iter().map(|g| g.len()).sum::<usize>()) % 2 == 0 { T::new() } else { T::default_() };
             w.ghost[s].clear();
             w.addonly[s] = true;
         }
